@@ -79,7 +79,9 @@ def check(ctx):
             okr = x[0] == "call" and x[1][0] == "attr" and x[1][2] == "round"
             ctx.ob("C03.R3.round", f"{gf.qualname}|aggregate {side} rounded", okr, gf.where(n), f"aggregate {side} bound rounded" if okr else "not rounded")
             colt = x[1][1] if okr else x
-            ctx.require(colt[0] == "attr", f"{gf.where(n)}: aggregate {side} is not a table column")
+            cr_ = ir.column_ref(colt)
+            ctx.require(cr_ is not None, f"{gf.where(n)}: aggregate {side} is not a table column")
+            colt = ("attr", cr_[0], cr_[1])
             val = F.col(colt[1], ("const", colt[2]))
             for cls_mode in (False, True):
                 problems = []
